@@ -31,7 +31,7 @@ DumpState == PrintT(ToJson([key |-> Key, obs |-> Expect]))
 (* Universes used by the configurations                                    *)
 (***************************************************************************)
 None == {}
-OpsU == {"registerUtility", "unregisterUtility", "reinit"}
+OpsU == {"registerUtility", "unregisterUtility", "reinit", "dropcache"}
 OpsA == {"registerAdapter", "unregisterAdapter",
          "registerSubscriptionAdapter", "unregisterSubscriptionAdapter",
          "registerHandler", "unregisterHandler", "reinit"}
